@@ -205,6 +205,18 @@ func genC10(t *core.Tape, tier string) *Scenario {
 			name = "Grpc-Timeout"
 		}
 		hdr.Set(name, s)
+		if class == "gram" && t.Bool(1, 8, "timeout.repeated") {
+			// the field twice: HTTP reads that as one comma-separated list,
+			// which is not a timeout, whatever the two lines say
+			other := []string{"banana", "1", s}[t.Choose(3, "timeout.second")]
+			if proto != PConnect {
+				other = []string{"banana", "1S", s}[t.Choose(3, "timeout.second")]
+			}
+			hdr[name] = []string{s, other}
+			class = "malformed"
+			s = s + ", " + other
+			sc.Notes["timeout_header_repeated"]++
+		}
 		var body []byte
 		switch {
 		case proto == PConnect && p.Kind == KUnary:
